@@ -1,5 +1,6 @@
 import NixModel.Lemmas.C13Shape
 import NixModel.Lemmas.C13Ids
+import NixModel.Lemmas.C13Supplied
 import NixModel.Generated.FindShape
 import NixModel.Generated.IdLookup
 
@@ -332,6 +333,20 @@ theorem parent_ids_code (texts : Nat → String) (f : File) (h : WF f) (ok : Ids
   have e := fun k => sectionParentT_eq FindShape.sectionParent IdLookup.shape (by decide) ok k useCache
   simp only [e]
   exact parent_code f h useCache
+
+/-- the same for the texts a history leaves in the file (`textsOf given gen`, what the driver runs with): the ids
+the caller supplied with `create_section(…, oid=…)` as `Section.create_new` stored them, a library-made id for every
+other entity.  The hypotheses are about the *inputs* only: library-made ids are fresh ids, the supplied texts are
+ids, pairwise different and no library-made id, nothing is named like an id - the spelling of the supplied texts
+is free. -/
+theorem parent_supplied_code (given : List (Nat × String)) (gen : Nat → String) (f : File) (h : WF f)
+    (ok : SuppliedOK given gen f.sections) (useCache : Bool) :
+    (∀ x ∈ f.sections,
+      sectionParentT FindShape.sectionParent IdLookup.shape (textsOf given gen) f x.key useCache = .ok none) ∧
+    (∀ p ∈ nodesL f.sections, ∀ x ∈ p.children,
+      sectionParentT FindShape.sectionParent IdLookup.shape (textsOf given gen) f x.key useCache
+        = .ok (some p.key)) :=
+  parent_ids_code _ f h (idsOK_of_supplied ok) useCache
 
 /-- **`Source.parent_source` on the stored id texts is the containing source** -/
 theorem parent_source_ids_code (texts : Nat → String) (f : File) (h : WF f) (b : Block) (hb : b ∈ f.blocks)
